@@ -1,8 +1,8 @@
 (** C08, source tie: [len(chain)] and the scratch growth of [BaseSampler.run] as written in
     /repo today are the model's [clen] and [pt_grow] arithmetic.
-    Statements only; proofs in [SrcTie_pt]. *)
+    Statements only; proofs in [SrcTie_chain]. *)
 From Coq Require Import ZArith Bool.
-From Epsie Require Import Base Machine Gen.Src SrcTie_pt.
+From Epsie Require Import Base Machine Gen.Src SrcTie_chain.
 
 Theorem C08_src_len :
   forall (V : Type) (c : chain V), (lastclear V c <= iter V c)%nat ->
